@@ -216,5 +216,12 @@ func AcceptBidToBuy1SatOrdinal(ctx context.Context, vba *ValidateBidArgs, aba *A
 		return nil, err
 	}
 
+	// the bid was validated without the seller's unlocking script: make sure
+	// the completed transaction still pays the expected fee
+	enough, err = tx.IsFeePaidEnough(vba.ExpectedFQ)
+	if err != nil || !enough {
+		return nil, bt.ErrInsufficientFees
+	}
+
 	return tx, nil
 }
